@@ -374,7 +374,7 @@ func main() {
 	}
 	r := gen.New(gen.Seed())
 	cfgs := []mavlh.Cfg{{}, {Prefix: true}, {Prune: true}, {Prefix: true, Prune: true}}
-	n := gen.Scale(16, 1000)
+	n := gen.Scale(36, 1000)
 	for i := 0; i < n; i++ {
 		for _, c := range cfgs {
 			if r.Chance(1, 6) { // the other sub-options do not reach proof.go; sampled now and then
